@@ -101,6 +101,18 @@ pub fn dispatch(op: &str, a: &[&str]) -> Option<Ans> {
                 ("heap", 32) => tf!(dryoc::protected::HeapByteArray<32>),
                 #[cfg(feature = "nightly")]
                 ("heap", 64) => tf!(dryoc::protected::HeapByteArray<64>),
+                // the slice constructors of locked fixed-length containers (keys, nonces, tags held in protected memory)
+                #[cfg(feature = "nightly")]
+                ("locked", 16) | ("locked", 24) | ("locked", 32) | ("locked", 64) | ("lockedro", 16) | ("lockedro", 24) | ("lockedro", 32) | ("lockedro", 64) => {
+                    use dryoc::protected::{HeapByteArray, NewLockedFromSlice};
+                    macro_rules! fl { ($n:literal) => {
+                        if cont == "locked" {
+                            match HeapByteArray::<$n>::from_slice_into_locked(p.as_slice()) { Ok(v) => ok(v.as_slice()), Err(_) => "err".to_string() }
+                        } else {
+                            match HeapByteArray::<$n>::from_slice_into_readonly_locked(p.as_slice()) { Ok(v) => ok(v.as_slice()), Err(_) => "err".to_string() }
+                        } }; }
+                    match n { 16 => fl!(16), 24 => fl!(24), 32 => fl!(32), _ => fl!(64) }
+                }
                 // key-pair decoders: public key ‖ secret key, split in the middle of the payload
                 ("keypair", _) => {
                     let (pk, sk) = p.split_at(p.len() / 2);
@@ -139,7 +151,11 @@ pub fn dispatch(op: &str, a: &[&str]) -> Option<Ans> {
                     let (k, n): ([u8; 32], [u8; 24]) = (arr(&b[0]), arr(&b[1]));
                     let bx = dryoc::dryocsecretbox::VecBox::encrypt_to_vecbox(&b[2], &n, &k);
                     match rt(fmt, &bx, |x, y| x == y) {
-                        Ok(w) => match w.decrypt_to_vec(&n, &k) { Ok(m) if m == b[2] => ok(&w.to_vec()), _ => "mismatch decrypt-after-roundtrip".into() },
+                        Ok(w) => match w.decrypt_to_vec(&n, &k) {
+                            // the consuming conversion of the decoded object (its payload Vec carries whatever capacity the decoder left)
+                            Ok(m) if m == b[2] => { let v = w.to_vec(); if w.into_vec() != v { "mismatch into_vec-after-roundtrip != to_vec".into() } else { ok(&v) } }
+                            _ => "mismatch decrypt-after-roundtrip".into(),
+                        },
                         Err(e) => e,
                     }
                 }
